@@ -244,3 +244,25 @@ Example c11_ex_wrapped_not_repeat :
   /\ In (KO 2) (rc_objs (nth 1 (fst (compile_select (fun n => n) StDisamb [ex_wrapped 1; ex_wrapped 2]))
                               {| rc_keyname := KN; rc_name := KN; rc_objs := [] |})).
 Proof. vm_compute. split; [reflexivity|split; [reflexivity|]]. auto 10. Qed.
+
+(* ---------- reuse of the metadata through the compiled cache (_safe_for_cache) ---------- *)
+Theorem c11_safe_for_cache_positional_sound : forall rcs f desc desc' tr,
+  rcs <> [] -> f_ordered f = true -> f_textual_ordered f = false ->
+  length desc = length rcs -> length desc' = length rcs ->
+  build rcs f desc tr = build rcs f desc' tr /\ safe_for_cache rcs f desc = true.
+Proof. exact safe_for_cache_positional_sound. Qed.
+Print Assumptions c11_safe_for_cache_positional_sound.
+
+(* metadata built by name matching follows the cursor's column order (Example) and is never reused *)
+Theorem c11_name_matching_never_safe : forall rcs f desc,
+  f_textual_ordered f = false -> f_adhoc f = false ->
+  (f_ordered f = false \/ length desc <> length rcs) -> safe_for_cache rcs f desc = false.
+Proof. exact name_matching_never_safe. Qed.
+Print Assumptions c11_name_matching_never_safe.
+
+Example c11_ex_name_matching_order_matters :
+  let rcs := [ {| rc_keyname := w_q; rc_name := w_q; rc_objs := [KO 1; w_q] |};
+               {| rc_keyname := w_z; rc_name := w_z; rc_objs := [KO 2; w_z] |} ] in
+  lookup (keymap_of (raw_byname rcs true [(w_q, KN); (w_z, KN)]) 2 true) (KO 1) = Ok 0 /\
+  lookup (keymap_of (raw_byname rcs true [(w_z, KN); (w_q, KN)]) 2 true) (KO 1) = Ok 1.
+Proof. exact name_matching_order_matters. Qed.
